@@ -81,3 +81,9 @@ package generics
 //@   ensures[only-expired-entries-leave] forall j K :: in(m.Items, j) == (in(old(m.Items), j) && !old(m.Items)[j].Expiration.Before(clockNow(m.Clock)))
 //@   ensures[entries-kept] forall j K :: in(m.Items, j) ==> m.Items[j] == old(m.Items)[j]
 //@   modifies m.Items
+
+// ---- C35: both TTL containers promise to be safe for concurrent use
+//@ guarded_by generics.SetWithTTL.mut: Items
+//@ lockdiscipline generics.SetWithTTL mut props C35
+//@ guarded_by generics.MapWithTTL.mut: Items
+//@ lockdiscipline generics.MapWithTTL mut props C35
